@@ -311,7 +311,7 @@ func propC14(r *kernel.Run) {
 		w.Net.NextFault = nil
 		judge(kind, class, true)
 		hist = append(hist, kind+"/"+class)
-		r.FP(kind, classKey(class))
+		r.FP(kind, classKey(class), closeErr, base != nil, w.Net.Frag, srv.RW != nil, i)
 		r.Count("cases", 1)
 		if tp.Draw(2) == 0 {
 			honestDial(kind + "/" + classKey(class))
